@@ -12,7 +12,7 @@ META = {
             '(1..6 history entries, empty layers interleaved, 1-3 package-list files with up to 4 packages, add/rewrite/delete/re-create/no-op/replace-by-symlink; history full, missing or short; context optionally cancelled during the trace), '
             'scanning them with ScanContainer and a line-oriented fake extractor and comparing Index, DiffID and Command of every package; the oracle is the brute-force origin computed from the case.',
     'note': 'Trusted: Lean kernel; axioms propext/Quot.sound/Classical.choice at most; the Go harness, go-containerregistry image construction and the line protocol. '
-            'Assumed: one extractor per file and one location per package (the cache key omits the extractor); filesystem.Run inside the trace fails only through a cancelled context (modelled as a cancellation point: the package then gets no LayerDetails — '
+            'Assumed: one location per package (two extractors reading one file are generated since fix 60a87cab: the cache key carries the extractor); filesystem.Run inside the trace fails only through a cancelled context (modelled as a cancellation point: the package then gets no LayerDetails — '
             'theorem C05_origin_or_unset); views follow the per-file keep/write/symlink/delete semantics (that is C04); a symlinked location points to a list that no later layer touches.',
 }
 P = 'Scalibr.Trace.'
@@ -86,7 +86,7 @@ def run(ctx):
                    'Lean compiler for the driver executable']
     ctx.assumptions = ['what an extractor reports for a location depends only on the object at that path (hypothesis hd of the _partial theorems: filesExistInLayer answers "yes" exactly when the layer changed it); known to fail for symlinked locations whose target is rewritten (op t, finding C05/location-content-depends-on-other-paths) and, outside this stream, for extractors that read a second file (os/dpkg: etc/os-release) or report a first location they are not required for (go.sum of gomod)',
                        'per file, a chain layer keeps, writes, deletes the file or replaces it by a symlink to another list (whose target no later layer touches); the image-up-to-layer views follow that (C04 is the property about views)',
-                       'one extractor per file, one location per package: the cache key (location, layer index) then determines the extraction result',
+                       'one location per package: the cache key (location, layer index, extractor) then determines the extraction result',
                        'filesystem.Run inside the trace fails only through the context (ErrorOnFSErrors and MaxInodes do not reach it): cancellation is modelled as "after k re-extractions"; extraction is a function of the file content; an Extract error does not drop the packages it returned',
                        'package identity = (purl, Locations[0]); the fake extractor emits purls pkg:generic/<name>@<version>, names are shared between versions']
     ctx.rule = ('case = history of 1..6 entries (E empty layer | layer with one op per file: k keep, d whiteout, w<digits> rewrite with these packages (a digit is a (name, version) pair; digits d and d+4 are the SAME name at versions 1 and 2, so files hold one name at two versions, versions get bumped, and the same name@version sits at several locations), s<digits> replace the location by a symlink to such a list, a<n>/r<n> delete by whiteout / replace by a regular file the directory n levels above the file — files sit up to three directories deep and share no ancestor, because a deleted directory re-created for a SIBLING is the known C04 finding C04/recreate-after-whiteout), 1..3 files, history mode H/N/S/G (full; none, last entry dropped, one entry too many: the last three usually take the fallback of initializeChainLayers, where the specification (Spec.specChain) says one chain layer per v1 layer, Index = the ordinal of the layer, no command), optionally the context cancelled after k re-extractions of the trace (c0: by a detector, before the trace starts); a fifth of the cases lets something fail AFTER the successful extraction of the final view (a detector reporting inconsistent advisories / a finding without advisory / an error, a failing standalone extractor): the scan is then marked failed or partly failed but keeps its inventory, and the attribution must be exactly the same; '
